@@ -910,10 +910,24 @@ class Interp:
             return const("".join(str(p_[1]) for p_ in parts))
         return ("fstr", tuple(parts))
 
+    def ev_test(self, st, n, tree):
+        """An expression evaluated for its truth value."""
+        return self.truth_of(st, self.ev(st, n, tree), n, tree)
+
+    def truth_of(self, st, v, node, tree):
+        """The truth value of an object of a repository class that defines ``__bool__`` is what that method answers."""
+        if isinstance(v, tuple) and v and v[0] in ("attr", "param", "ref", "elem", "item", "local"):
+            cls = self.type_of(v)
+            if cls is not None:
+                m = cls.find_method("__bool__")
+                if m is not None and not m.is_property and m.qualname not in self.intrinsics:
+                    return self.call_function(st, m, [v], {}, node, tree)
+        return v
+
     def ev_UnaryOp(self, st, n, tree):
         v = self.ev(st, n.operand, tree)
         if isinstance(n.op, ast.Not):
-            return mk_not(v)
+            return mk_not(self.truth_of(st, v, n, tree))
         if isinstance(n.op, ast.USub) and is_const(v) and isinstance(v[1], (int, float)):
             return const(-v[1])
         return ("unop", type(n.op).__name__, v)
@@ -1142,7 +1156,7 @@ class Interp:
         return self._demorgan("or" if is_or else "and", tuple(keep))
 
     def ev_IfExp(self, st, n, tree):
-        c = self.ev(st, n.test, tree)
+        c = self.ev_test(st, n.test, tree)
         if is_const(c):
             return self.ev(st, n.body if c[1] else n.orelse, tree)
         a, sa, fa = self._branch(st, c, lambda s, t: self.ev(s, n.body, t))
@@ -2267,7 +2281,7 @@ class Interp:
     def exec_if(self, s: ast.If, st: State, tree: list, rest: list) -> Outcome | None:
         """Returns None when evaluated in place (state merged into ``st``); otherwise the outcome of
         if + rest (the rest having been nested into the branch that stays live)."""
-        c = self.ev(st, s.test, tree)
+        c = self.ev_test(st, s.test, tree)
         if is_const(c):
             # statically decided: only the taken branch exists
             o = self.exec_block(s.body if c[1] else s.orelse, st, tree)
@@ -2755,7 +2769,7 @@ class Interp:
             self.bind_target(f, s.target, self._subst_loop(ms[1], ms[2], lid) if ms is not None else ("elem", lid), lid, it)
             # iteration over an inline generator / filter keeps its conditions
         else:
-            info["test"] = self.ev(f, s.test, sub)
+            info["test"] = self.ev_test(f, s.test, sub)
         out = self.exec_block(s.body, f, sub)
         end = self._merge_exit(out.live, out.cont)
         if end is not None:
